@@ -42,6 +42,7 @@ def check(ctx):
 
     ctx.run_shared(_sh.path_tokenisers)
     ctx.run_shared(_sh.graph_loader)
+    ctx.run_shared(_sh.gaf_reader)  # sort opens its input by the same content sniffer as the GAF reader
     ctx.run_shared(_sh.cli_layer, "gaftools.cli.sort")
 
 
@@ -171,6 +172,13 @@ def r10_1(ctx, m):
             # select records: it is not a condition of the index update
             wst = [e.node for e in evs if e.kind == "stmt" and c09.is_write_stmt(ctx, m, e.node)]
             line_names = {n.id for w_ in wst for n in ast.walk(w_) if isinstance(n, ast.Name)} - {wr, m.rec, idx_dict}
+            # ... and the locals the written text is made from (record = line.rstrip(); line = reader.readline())
+            for _ in range(4):
+                for st_ in walk_stmts(m.pass2.body):
+                    if isinstance(st_, (ast.Assign, ast.AugAssign)):
+                        tg = st_.targets[0] if isinstance(st_, ast.Assign) else st_.target
+                        if isinstance(tg, ast.Name) and tg.id in line_names:
+                            line_names |= {n.id for n in ast.walk(st_.value) if isinstance(n, ast.Name)} - {wr, m.rec, idx_dict, m.reader}
             harmless = line_names | {"isinstance", "bytes", "str", "type"}
             extra = [norm(t) for t, pol in g if canon_pair(t, pol)[0] not in (f"{key}[0] is None", f"{idx_path} is None") and not ({n.id for n in ast.walk(t) if isinstance(n, ast.Name)} <= harmless)]
             if extra:
@@ -228,7 +236,8 @@ def r10_2(ctx, m):
             if e.kind == "stmt" and any(x is m.dump for x in ast.walk(e.node)):
                 break
             if e.kind == "stmt":
-                r = may_raise_keyerror(e.node)
+                guarded = any(isinstance(t_, ast.Try) and any(x is e.node for b_ in t_.body for x in ast.walk(b_)) and any(h_.type is None or norm(h_.type) in ("KeyError", "LookupError", "Exception") or (isinstance(h_.type, ast.Tuple) and any(norm(x) in ("KeyError", "LookupError", "Exception") for x in h_.type.elts)) for h_ in t_.handlers) and not any(isinstance(x, (ast.Return, ast.Raise)) for h_ in t_.handlers for b_ in h_.body for x in ast.walk(b_)) for r_ in region for t_ in ast.walk(r_))
+                r = None if guarded else may_raise_keyerror(e.node)  # (a removal inside `try ... except KeyError` cannot stop the dump)
                 if r:
                     bad = (p, r)
                     break
